@@ -106,10 +106,10 @@ class Task(object):
         if (self.flops > 0) or (self.task_data > 0):
             self.duration = self.calculate_runtime(machine)
         total_duration = self._calc_task_delay()
-        if total_duration < 1:
-            yield env.timeout(1)
-        else:
-            yield env.timeout(total_duration - 1)
+        # A task occupies its machine for at least one timestep; aft is
+        # set to now + 1 below, so a sub-step runtime must not wait a full
+        # extra step first.
+        yield env.timeout(max(total_duration, 1) - 1)
 
         if self.duration < total_duration:
             self.delay_flag = True
